@@ -6,8 +6,8 @@ import "verif/txpipe"
 func main() {
 	txpipe.Main(txpipe.CheckDef{
 		ID:         "C01",
-		Groups:     []string{"ser", "con"},
-		Oracles:    txpipe.Oracles{Serializable: true},
+		Groups:     []string{"ser", "con", "fk"},
+		Oracles:    txpipe.Oracles{Serializable: true, ForeignKeys: true},
 		QuickBound: 1, ThoroughBound: 2,
 		SyncLen: -2, SyncLenThorough: 2,
 
